@@ -58,6 +58,7 @@ type issued struct {
 }
 
 type world struct {
+	nKeyB              int
 	importedKeys       []btcutil.Address       // single keys imported through Wallet.ImportPrivateKey
 	importedKeyScripts map[string]int          // pkScript -> index into importedKeys
 	hadCrash           bool                    // a power loss discarded commits: addresses the harness believes issued may be unknown to the wallet
